@@ -30,7 +30,10 @@ enum Kind {
     Bad,
 }
 
-const TEXTS: [(&str, Kind); 7] = [
+const TEXTS: [(&str, Kind); 9] = [
+    // two texts that differ only in the sign of a zero inside a DATA item
+    (" DATA 0: PRINT \"z\";", Kind::Good('z')),
+    (" DATA -0: PRINT \"z\";", Kind::Good('z')),
     // a line whose first statement executes nothing, with one that prints behind it
     (" DATA 1: PRINT \"d\";", Kind::Good('d')),
     (" PRINT \"a\";", Kind::Good('a')),
@@ -46,7 +49,7 @@ fn edit_line(n: usize, t: usize) -> String {
 }
 
 /// Reference: fold a history into the map line number -> letter.
-fn model(hist: &[Ev]) -> BTreeMap<u64, char> {
+fn model(hist: &[Ev]) -> BTreeMap<u64, usize> {
     let mut m = BTreeMap::new();
     for e in hist {
         let l = match e {
@@ -55,14 +58,11 @@ fn model(hist: &[Ev]) -> BTreeMap<u64, char> {
         };
         for (n, (ns, key)) in NUMS.iter().enumerate() {
             for (t, (ts, kind)) in TEXTS.iter().enumerate() {
-                let _ = (n, t);
+                let _ = n;
                 if *l == format!("{}{}", ns, ts) {
                     match kind {
-                        Kind::Good(c) => {
-                            m.insert(*key, *c);
-                        }
-                        Kind::Silent => {
-                            m.insert(*key, ':');
+                        Kind::Good(_) | Kind::Silent => {
+                            m.insert(*key, t);
                         }
                         Kind::Empty => {
                             m.remove(key);
@@ -77,23 +77,35 @@ fn model(hist: &[Ev]) -> BTreeMap<u64, char> {
 }
 
 /// What a fresh interpreter lists after receiving only this line (differential spelling).
-fn fresh_listing(key: u64, c: char) -> String {
+fn fresh_listing(key: u64, t: usize) -> String {
+    static CACHE: std::sync::OnceLock<std::sync::Mutex<std::collections::HashMap<(u64, usize), String>>> = std::sync::OnceLock::new();
+    let cache = CACHE.get_or_init(Default::default);
+    if let Some(v) = cache.lock().unwrap().get(&(key, t)) {
+        return v.clone();
+    }
+    let v = fresh_listing_uncached(key, t);
+    cache.lock().unwrap().insert((key, t), v.clone());
+    v
+}
+
+fn fresh_listing_uncached(key: u64, t: usize) -> String {
     let mut s = Sess::new();
-    let text = if c == ':' {
-        format!("{} :", key)
-    } else if c == 'd' {
-        format!("{} DATA 1: PRINT \"d\";", key)
-    } else {
-        format!("{} PRINT \"{}\";", key, c)
-    };
+    let text = format!("{}{}", key, TEXTS[t].0);
     let _ = s.apply(&Ev::Line(text));
     s.recs.clear();
     let _ = s.apply(&Ev::Line("LIST".into()));
     s.printed()
 }
 
+fn letter(t: usize) -> Option<char> {
+    match TEXTS[t].1 {
+        Kind::Good(c) => Some(c),
+        _ => None,
+    }
+}
+
 /// Checks the store of `s` against the reference map; consumes the session.
-fn check_store(s: &mut Sess, m: &BTreeMap<u64, char>) -> Option<(String, String)> {
+fn check_store(s: &mut Sess, m: &BTreeMap<u64, usize>) -> Option<(String, String)> {
     let snap = match guarded(|| s.it.verif_snapshot()) {
         Ok(x) => x,
         Err(p) => return Some((format!("snapshot panic {}", short_panic(&p)), p)),
@@ -131,7 +143,7 @@ fn check_store(s: &mut Sess, m: &BTreeMap<u64, char>) -> Option<(String, String)
     }
     s.recs.clear();
     let r = s.apply(&Ev::LineToIdle("RUN".into()));
-    let want_out: String = m.values().filter(|c| **c != ':').collect();
+    let want_out: String = m.values().filter_map(|t| letter(*t)).collect();
     if r != CallResult::Ok || s.state() != abasic_core::InterpreterState::Idle {
         return Some((
             format!("RUN ended {:?}", r).chars().take(60).collect(),
@@ -198,7 +210,7 @@ pub fn run(thorough: bool) -> Report {
         // Every sequence of <= L edits over three keys (no dedup): order irrelevance is
         // checked on every permutation rather than inferred from merged states.
         let keys = [2usize, 4, 8]; // "0", a 30-digit spelling of 10, u64::MAX
-        let l = if thorough { 6 } else { 4 };
+        let l = if thorough { 5 } else { 3 };
         let evs: Vec<(usize, usize)> = keys.iter().flat_map(|k| (0..TEXTS.len()).map(move |t| (*k, t))).collect();
         let base = evs.len() as u64;
         for len in 1..=l {
